@@ -21,11 +21,9 @@ theorem core_roundtrip (useHex : Int → Bool) (m : CoreMod)
 
 /-- the guard is satisfiable and the statement is not vacuous: a module with a quoted name, a name with
     a high byte, a negative and a large value -/
-example : ∀ g ∈ [(⟨[97, 32, 98], 32, -7⟩ : GlobalDef), ⟨[0xE4, 0xB8], 64, 2147483648⟩], GlobalOK g := by
+example : ∀ g ∈ [(⟨[97, 32, 98], 32, -7⟩ : GlobalDef), ⟨[0xE4, 0xB8], 64, 2147483648⟩, ⟨[120], 1, -1⟩], GlobalOK g := by
   intro g hg
   simp only [List.mem_cons, List.mem_nil_iff, or_false] at hg
-  rcases hg with rfl | rfl
-  · exact ⟨by simp, by decide⟩
-  · exact ⟨by simp, by decide⟩
+  rcases hg with rfl | rfl | rfl <;> simp [GlobalOK]
 
 end Llir.Props.C01
